@@ -136,6 +136,25 @@ let handle_src (w : Stdlib.String.t list) : Stdlib.String.t =
       (match Model.src_verify (hbuf ()) (nat_of_int (int_of_string t)) (unhex f) (unhex k) with
        | SOk c -> if int_of_n c = 0 then "OK -" else "FAIL " ^ string_of_int (int_of_n c)
        | SErr w -> "ERR " ^ coqstr w)
+  | ["conc"; t; pad; inp; sched] ->
+      (* the TRANSLATED protocol (Gen/Src_conc.v) under the thread semantics MiniCConc, same schedule, same output format *)
+      let t = nat_of_int (int_of_string t) and pad = (pad = "1") in
+      let sched = if sched = "-" then [] else List.map (fun x -> nat_of_int (int_of_string x)) (String.split_on_char ',' sched) in
+      (match Model.conc_src_run (buf ()) t pad (unhex inp) sched with
+       | SErr w -> "BLOCKED " ^ coqstr w
+       | SOk (cs, log) ->
+           let b = Buffer.create 4096 in
+           List.iter (fun ((tid, nen), evs) ->
+             Buffer.add_string b (Printf.sprintf "C%d/%d" (int_of_nat tid) (int_of_nat nen));
+             List.iter (fun ((k, o), v) ->
+               let o = int_of_z o in
+               (* 20 / 21 are the harness' window markers, not events of a step *)
+               if int_of_z k <> 20 && int_of_z k <> 21 then
+                 Buffer.add_string b (Printf.sprintf ",%d:%d:%d" (int_of_z k) (if o < 0 then 999 else o) (int_of_z v))) evs;
+             Buffer.add_char b ';') log;
+           Printf.sprintf "%s enabled=%d crashed=- out=%s log=%s"
+             (if Model.all_done cs then "TERMINAL" else "RUNNING") (if Model.all_done cs then 0 else int_of_nat (Model.enabled_count0 cs))
+             (hex (Model.conc_output cs)) (Buffer.contents b))
   | "clip" :: toks ->
       (match Model.src_cli_parse (List.map tok_of_string (List.filter (fun x -> x <> "") toks)) with
        | SOk None -> "NULL" | SOk (Some p) -> cpak_string p | SErr w -> "ERR " ^ coqstr w)
